@@ -106,7 +106,7 @@ def build(e):
         K = SCALE[0]
         from torchphysics.problem.domains.domain3D.trimesh_polyhedron import TrimeshPolyhedron
         return TrimeshPolyhedron(space_of(e["v"]), vertices=[[c / 4.0 * K for c in v] for v in e["vs"]],
-                                   faces=[[i - 1 for i in f] for f in e["fs"]])
+                                   faces=[[i - 1 for i in f] for f in e["fs"]], tol=1.0e-06 * K)     # (the boundary tolerance is the user's: scaled with the mesh)
     if k == "union":
         if e.get("disjoint"):
             from torchphysics.problem.domains.domainoperations.union import UnionDomain
